@@ -246,6 +246,38 @@ def run(ctx):
         chk.bad(R3, IMPORT, norm(filt.iter)[:100], 'with equal hash algorithms the keys to transfer are no longer exactly those present on the left (request) only: '
                 'objects the destination already holds would be written again, or requested objects skipped', where=f'{fn.module.relpath}:{filt.lineno}')
 
+    # ---------------------------------------------------------------- R5: direction of the transfer (receiver provenance)
+    R5 = chk.rule('C14.R5', 'objects are read from the source container and looked up / written / committed on the destination (self)', 2)
+    srcp = next((a.arg for a in fn.node.args.args + fn.node.args.kwonlyargs if a.arg != 'self' and a.annotation is not None and 'Container' in norm(a.annotation)), None)
+    chk.require(srcp is not None, 'import_objects: source container parameter not found')
+    roles = {'get_objects_stream_and_meta': srcp, 'get_objects_meta': srcp, 'get_object_stream': srcp, 'get_objects_content': srcp, 'get_object_content': srcp,
+             '_list_loose': 'self', '_get_operation_session': 'self', 'add_streamed_object_to_pack': 'self', 'add_objects_to_pack': 'self',
+             'add_streamed_objects_to_pack': 'self', 'add_object': 'self', 'add_streamed_object': 'self', 'list_all_objects': 'self', 'has_objects': 'self', 'has_object': 'self'}
+    nrecv = 0
+    badrecv = []
+    for c in walk_local(fn.node):
+        if isinstance(c, ast.Call) and isinstance(c.func, ast.Attribute) and c.func.attr in roles and isinstance(c.func.value, ast.Name) and c.func.value.id in (srcp, 'self'):
+            nrecv += 1
+            if c.func.value.id != roles[c.func.attr]:
+                badrecv.append(c)
+    reads = [c for c in walk_local(fn.node) if isinstance(c, ast.Call) and isinstance(c.func, ast.Attribute) and c.func.attr.startswith('get_object') and norm(c.func.value) == srcp]
+    chk.require(nrecv >= 4, f'import_objects: expected >= 4 container method calls with a known role, found {nrecv}')
+    if badrecv:
+        for c in badrecv:
+            chk.bad(R5, IMPORT, norm(c)[:100], f'`{c.func.attr}` is called on `{norm(c.func.value)}` but in an import it belongs to `{roles[c.func.attr]}`: the destination is compared with / read from / written to the wrong container',
+                    where=f'{fn.module.relpath}:{c.lineno}')
+    elif not reads:
+        chk.bad(R5, IMPORT, 'source reads', 'the objects are not read from the source container', where=f'{fn.module.relpath}:{fn.lineno}')
+    else:
+        chk.ok(R5, IMPORT, f'{nrecv} container calls', detail=f'reads on `{srcp}`, existence listing / writes / commit on self', evals=nrecv)
+    # the hash types compared to choose the branch are those of the two containers
+    htest = [n for n in walk_local(fn.node) if isinstance(n, ast.If) and 'hash_type' in norm(n.test) and isinstance(n.test, ast.Compare)]
+    if htest and {norm(htest[0].test.left), norm(htest[0].test.comparators[0])} == {'self.hash_type', f'{srcp}.hash_type'} and isinstance(htest[0].test.ops[0], (ast.Eq, ast.NotEq)):
+        chk.ok(R5, IMPORT, norm(htest[0].test), detail='branch chosen by comparing the two containers\' hash algorithms')
+    else:
+        chk.bad(R5, IMPORT, norm(htest[0].test) if htest else 'hash type test', 'the same-hash fast path is not selected by comparing self.hash_type with the source container\'s hash_type: '
+                'with different algorithms keys would be compared that can never match (or everything is re-hashed needlessly)', where=f'{fn.module.relpath}:{(htest[0].lineno if htest else fn.lineno)}')
+
     # ---------------------------------------------------------------- R4
     rets = [n for n in walk_local(fn.node) if isinstance(n, ast.Return) and n.value is not None]
     chk.require(rets, 'import_objects: return not found')
